@@ -94,6 +94,18 @@ func (c *Component) forwardDHCPv6(s *SessionState, msg *dhcp6.Message) {
 	var resolved *dhcp.ResolvedDHCPv6
 	if mode := profileMode(profile); mode == "" || mode == "server" || mode == "local" {
 		resolved = c.resolveDHCPv6(allocCtx)
+		// Without a resolved binding (pool exhausted, or the address / prefix the
+		// allocation context carries is reserved for another session) the local
+		// provider would answer from its own view of the pools, outside the
+		// allocator registry: the client would be given an address or prefix that
+		// is not reserved for it and may be held by another subscriber. Do not
+		// answer; the client retransmits. A Release / Decline is still handed on,
+		// it only gives leases back.
+		if resolved == nil && msg.MsgType != dhcp6.MsgTypeRelease && msg.MsgType != dhcp6.MsgTypeDecline {
+			c.logger.Warn("No address or prefix resolved, not answering DHCPv6",
+				"session_id", s.SessionID)
+			return
+		}
 	}
 
 	var ifaceName string
